@@ -36,6 +36,7 @@ var stubPkgs = []string{
 	"go.opentelemetry.io/",
 	"go.uber.org/fx",
 	"go.uber.org/dig",
+	"github.com/dadrus/httpsig",
 	"log",
 	"log/slog",
 	"runtime/debug",
